@@ -93,7 +93,7 @@ def top_files(cs, ts, snap, snap_v, tgt, tgt_v, roots=(), delegated=()):
 
 
 def simple_repo(s, cs=False, versions=(1, 1, 1, 1), roles=None, root=None, lengths="exact", hashes="exact",
-                targets=None, signers=None, delegate=None):
+                targets=None, signers=None, delegate=None, delegate_depth=1):
     """versions = (timestamp, snapshot, targets, snapshot-listed targets). Returns (root, files).
     delegate: name of one delegated role (version 9, key 7, no targets) the top-level role delegates to."""
     tsv, snv, tgv, listed = versions
@@ -105,6 +105,13 @@ def simple_repo(s, cs=False, versions=(1, 1, 1, 1), roles=None, root=None, lengt
         deleg = {"keys": [7], "roles": [{"name": delegate, "keyids": [7], "threshold": 1, "paths": ["zz/*"]}]}
         dl = [(delegate, 9, leaf)]
         metas[delegate + ".json"] = meta(leaf, 9, lengths, hashes)
+        for lvl in range(delegate_depth - 1):
+            # further roles in between: targets -> mid0 -> ... -> <delegate>
+            mid = s.targets(version=8, targets=[], sigs=valid([7]), delegations=deleg)
+            nm = "mid%d" % lvl
+            deleg = {"keys": [7], "roles": [{"name": nm, "keyids": [7], "threshold": 1, "paths": ["zz/*"]}]}
+            dl.insert(0, (nm, 8, mid))
+            metas[nm + ".json"] = meta(mid, 8, lengths, hashes)
     tgt = s.targets(version=tgv, targets=targets or [{"name": "file.txt", "content": "hello"}],
                     sigs=valid(signers["targets"]), **({"delegations": deleg} if deleg else {}))
     metas["targets.json"] = meta(tgt, listed, lengths, hashes)
